@@ -228,7 +228,10 @@ def expressions(ctx):
         for i, s in enumerate(G.chains3()):
             if i % ctx.nshards == ctx.shard:
                 yield G.build(s, leaves), True
-        # (c) depth three over one representative per precedence level, concrete operator drawn from the level
+        # (c) random deeper trees, every operand kind (index access, invocations with parameters, ...)
+        for _ in range((4000 if ctx.quick else 40000) // ctx.nshards):
+            yield G.rand_expr(rng, rng.choice((4, 5, 6))), True
+        # (d) depth three over one representative per precedence level, concrete operator drawn from the level
         opmap = lambda tag, rep: rng.choice(G.OPS_OF_LEVEL[G.LEVEL[rep]] if tag == 'B' else G.UNARY_OPS)
         short = G.LeafCycle(rng, ctx.shard)
         short.KINDS = ['int', 'var', 'bool', 'real', 'str']
@@ -239,9 +242,6 @@ def expressions(ctx):
         else:
             for i in range(ctx.shard, n3, ctx.nshards):
                 yield G.build(G.structure_at(i, 3, _LEVEL_REPS, _UNARY_REPS), short, opmap), False
-        # (d) random deeper trees, every operand kind (index access, invocations with parameters, ...)
-        for _ in range((4000 if ctx.quick else 40000) // ctx.nshards):
-            yield G.rand_expr(rng, rng.choice((4, 5, 6))), True
 
     for k, (tree, tight) in enumerate(families()):
         if k % 64 == 0 and ctx.expired():
